@@ -1,4 +1,4 @@
 (* extraction of the C01 crash-site models; directives: ExtrOcamlBasic only *)
 From Coq Require Import ExtrOcamlBasic.
-From CssV Require Import Base Regex Tokenizer Quote Gen.Quote Upto ParseTotal.
+From CssV Require Import Base Regex Tokenizer Quote Gen.StrTokenValue Upto ParseTotal.
 Extraction "parsetotal_model.ml" strval charset_rule charset_rule_pinned color_fn color_fn_pinned tokenize.
